@@ -11,7 +11,43 @@
  * platform configure found a C99 snprintf (HWLOC_HAVE_CORRECT_SNPRINTF), so hwloc_snprintf IS snprintf
  * (private.h macro) and the workaround function of misc.c is not used by the library. */
 #endif
+#ifdef SIZED_MALLOC
+/* asprintf allocates len+1 bytes with len computed from the set: a block of symbolic size is an array-theory object for the
+ * solver (no verdict). While the harness has vp_sized_on set, malloc(n) hands out a block of the CONSTANT size SIZED_CAP
+ * filled with a canary and records n; the harness then asserts that n is exactly what the text needs and that nothing was
+ * written at or beyond offset n — which is what an exactly sized block would have reported. */
+#include <stdlib.h>
+/* every header of bitmap.c first (their include guards then make bitmap.c's own includes no-ops), so that the macro below only
+ * meets the allocation calls written in bitmap.c itself (private.h has tma->malloc(...) members) */
+#include "private/autogen/config.h"
+#include "hwloc/autogen/config.h"
+#include "hwloc.h"
+#include "private/misc.h"
+#include "private/private.h"
+#include "private/debug.h"
+#include "hwloc/bitmap.h"
+#include <assert.h>
+#include <errno.h>
+#include <ctype.h>
+static int vp_sized_on; static size_t vp_sized_req; static unsigned vp_sized_calls; static char *vp_sized_blk;
+#ifndef SIZED_CAP
+#define SIZED_CAP 48
+#endif
+static void *vp_sized_malloc(size_t n)
+{
+  if (!vp_sized_on) return (malloc)(n);
+  vp_sized_req = n; vp_sized_calls++;
+  char *p = (malloc)(SIZED_CAP); VP_NONNULL(p);
+  for (unsigned i = 0; i < SIZED_CAP; i++) p[i] = (char) 0x5a;
+  vp_sized_blk = p;
+  return p;
+}
+#define malloc(n) vp_sized_malloc(n)
+#endif
 #include "hwloc/bitmap.c"
+#ifdef SIZED_MALLOC
+#undef malloc
+#endif
 
 #ifndef NW
 #define NW 1
@@ -248,6 +284,96 @@ VP_HARNESS(h_asprintf)
   for (unsigned i = 0; i < CAP; i++) if (i <= (unsigned) n) VP_CHECK(s[i] == buf[i], "asprintf produces the same text as snprintf");
   VP_WITNESS_IF(n >= 8, "a non-trivial text");
 }
+
+#ifdef SIZED_MALLOC
+/* asprintf == snprintf, with the allocation request observed instead of materialised (see vp_sized_malloc) */
+VP_HARNESS(h_asprintf_sized)
+{
+  struct hwloc_bitmap_s *a = mk(NW);
+#if FMT == 1
+  for (unsigned i = 0; i < NW; i++) VP_ASSUME((a->ulongs[i] & ~LISTMASK) == 0 || i >= a->ulongs_count);
+#endif
+#ifdef TOPLO
+  /* stated bound: the top explicit word lies in [TOPLO, TOPHI) so that the text length is around the interesting sizes */
+  VP_ASSUME(a->ulongs_count == NW && !a->infinite && a->ulongs[NW - 1] >= TOPLO && a->ulongs[NW - 1] < TOPHI);
+#endif
+  char *buf = malloc(CAP + 1), *s = NULL;
+  VP_NONNULL(buf);
+  int n = do_snprintf(buf, CAP + 1, a);
+  VP_ASSUME(n >= 0 && n < CAP && n + 1 < SIZED_CAP);
+  vp_sized_on = 1;
+  int m = do_asprintf(&s, a);
+  vp_sized_on = 0;
+  VP_CHECK(m == n, "asprintf returns the same length as snprintf");
+  VP_CHECK(s != NULL, "asprintf returns a string");
+  for (unsigned i = 0; i < CAP; i++) if (i <= (unsigned) n) VP_CHECK(s[i] == buf[i], "asprintf produces the same text as snprintf (including the terminator)");
+  if (s == vp_sized_blk) {
+    VP_CHECK(vp_sized_req >= (size_t) n + 1, "asprintf asks for at least length+1 bytes");
+    for (unsigned i = 0; i < SIZED_CAP; i++) if (i >= vp_sized_req) VP_CHECK(s[i] == (char) 0x5a, "asprintf never writes at or beyond the size it asked for");
+  }
+  VP_WITNESS_IF(n >= 8, "a non-trivial text");
+#ifdef TOPLO
+  VP_WITNESS_IF(n == 32, "a text of exactly 32 characters");
+#endif
+}
+#endif
+
+#ifdef ASP_CONTRACT
+/* The three *_asprintf functions against a CONTRACT of the printer they call. Their real bodies are copied out of the current
+ * hwloc/bitmap.c by the driver (asp.inc, renamed *__vp) and compiled here with the printer names redirected to a stand-in
+ * that obeys the snprintf contract for an ARBITRARY text: N characters (0..ACAP, symbolic, non-NUL), the same for every call on
+ * the same set. malloc is the observing allocator (constant-size block, request recorded). Decided for every N: the result is
+ * N, the string is the full text with its terminator, the request was at least N+1 bytes and nothing was written beyond it. */
+#ifndef ACAP
+#define ACAP 40
+#endif
+static unsigned vp_txt_n; static char vp_txt[ACAP + 1]; static unsigned vp_stub_calls;
+static int vp_stub_snprintf(char *buf, size_t buflen, const struct hwloc_bitmap_s *set)
+{
+  (void) set; vp_stub_calls++;
+  if (buflen > 0) {
+    for (unsigned i = 0; i < ACAP; i++) if (i < vp_txt_n && (size_t) i + 1 < buflen) buf[i] = vp_txt[i];
+    for (unsigned i = 0; i <= ACAP; i++) if (i == (vp_txt_n < buflen - 1 ? vp_txt_n : (unsigned) (buflen - 1))) buf[i] = 0;
+  }
+  return (int) vp_txt_n;
+}
+#define hwloc_bitmap_snprintf vp_stub_snprintf
+#define hwloc_bitmap_list_snprintf vp_stub_snprintf
+#define hwloc_bitmap_taskset_snprintf vp_stub_snprintf
+#define malloc(n) vp_sized_malloc(n)
+#include "asp.inc"
+#undef malloc
+#undef hwloc_bitmap_snprintf
+#undef hwloc_bitmap_list_snprintf
+#undef hwloc_bitmap_taskset_snprintf
+VP_HARNESS(h_asprintf_contract)
+{
+  struct hwloc_bitmap_s *a = mk(1);
+  vp_txt_n = (unsigned) vp_in_range(0, ACAP);
+  for (unsigned i = 0; i < ACAP; i++) { char c = (char) vp_in_byte(); VP_ASSUME(c != 0); vp_txt[i] = c; }
+  vp_txt[ACAP] = 0;
+  char *s = NULL;
+  vp_sized_on = 1;
+#if FMT == 0
+  int m = hwloc_bitmap_asprintf__vp(&s, a);
+#elif FMT == 1
+  int m = hwloc_bitmap_list_asprintf__vp(&s, a);
+#else
+  int m = hwloc_bitmap_taskset_asprintf__vp(&s, a);
+#endif
+  vp_sized_on = 0;
+  VP_CHECK(m == (int) vp_txt_n, "asprintf returns the length snprintf reports");
+  VP_CHECK(s != NULL, "asprintf returns a string");
+  for (unsigned i = 0; i < ACAP; i++) if (i < vp_txt_n) VP_CHECK(s[i] == vp_txt[i], "asprintf produces the full text snprintf produces");
+  for (unsigned i = 0; i <= ACAP; i++) if (i == vp_txt_n) VP_CHECK(s[i] == 0, "the text is terminated at its length");
+  if (s == vp_sized_blk) {
+    VP_CHECK(vp_sized_req >= (size_t) vp_txt_n + 1, "asprintf asks for at least length+1 bytes");
+    for (unsigned i = 0; i < SIZED_CAP; i++) if (i >= vp_sized_req) VP_CHECK(s[i] == (char) 0x5a, "asprintf never writes at or beyond the size it asked for");
+  }
+  VP_WITNESS_IF(vp_txt_n == 32, "a text of exactly 32 characters");
+  VP_WITNESS_IF(vp_txt_n == 0, "the empty text");
+}
+#endif
 
 /* ------------------------------------------------------------------------------------------------ */
 /* parsing an arbitrary NUL-terminated string held in an exactly sized object */
